@@ -384,7 +384,7 @@ func genSCTE(r *core.Rand) *SCTESpec {
 			d.Dur = int64(r.Pick(1, 90000, 0xFFFFFFFFF))
 		}
 		if r.Chance(1, 4) {
-			d.VSS = r.PickS("a", "Sq+kY9muQderGNiNtOoN6w==")
+			d.VSS = r.PickS("a", "Sq+kY9muQderGNiNtOoN6w==", "a", c10RawVSS[r.Intn(len(c10RawVSS))])
 		}
 		s.Descs = append(s.Descs, d)
 	}
